@@ -96,8 +96,30 @@ static int b_answer(const uint8_t **pl, rd_msg *m)
 	return -1;
 }
 
+/* the session records themselves: cursors and counters stay inside their buffers (an overflow inside the one big users[]
+ * allocation is invisible to the sanitizer) */
+static void check_user_invariants(void)
+{
+	struct tun_user *us = s_w_users(); int nu = s_w_created_users();
+	for (int i = 0; i < nu; i++) {
+		struct tun_user *u = &us[i];
+		const char *bad = NULL; long val = 0;
+		int cap = (int)sizeof u->inpacket.data;
+		if (u->inpacket.len < 0 || u->inpacket.len > cap) { bad = "inpacket.len"; val = u->inpacket.len; }
+		else if (u->inpacket.offset < 0 || u->inpacket.offset > cap) { bad = "inpacket.offset"; val = u->inpacket.offset; }
+		else if (u->outpacket.len < 0 || u->outpacket.len > cap) { bad = "outpacket.len"; val = u->outpacket.len; }
+		else if (u->outpacket.offset < 0 || u->outpacket.offset > cap) { bad = "outpacket.offset"; val = u->outpacket.offset; }
+		else if (u->outpacket.sentlen < 0 || u->outpacket.sentlen > cap) { bad = "outpacket.sentlen"; val = u->outpacket.sentlen; }
+		else if (u->outpacketq_filled < 0 || u->outpacketq_filled > OUTPACKETQ_LEN) { bad = "outpacketq_filled"; val = u->outpacketq_filled; }
+		else if (u->outpacketq_nexttouse < 0 || u->outpacketq_nexttouse >= OUTPACKETQ_LEN) { bad = "outpacketq_nexttouse"; val = u->outpacketq_nexttouse; }
+		else if (u->inpacket.seqno < 0 || u->inpacket.seqno > 7 || u->outpacket.seqno < 0 || u->outpacket.seqno > 7) { bad = "sequence number"; val = u->inpacket.seqno * 256 + u->outpacket.seqno; }
+		if (bad) { viol("session-record-out-of-range", "state '%s': %s of slot %d is %ld after: %s", STATE_DESC[cur_state], bad, i, val, cur_desc); return; }
+	}
+}
+
 static void health_probe(void)
 {
+	check_user_invariants();
 	static rd_msg m; const uint8_t *pl; uint8_t pkt[800], ip[100], z[200];
 	if (!vw_alive(0) || probe_failed) return;
 	char saved[200]; snprintf(saved, sizeof saved, "%s", cur_desc);
@@ -418,6 +440,12 @@ static void fam_data(void)
 		unsigned char junk[200]; memset(junk, i, sizeof junk);
 		int n = tm_data(pkt, 0x6400 + i, 10, 1, 5, (i % 15) + 1, 0, 0, 0, "abcdefghijklmnopqrstuvwxyz0123456789"[i % 36], REF_B32, junk, 120, DOM);
 		deliver(&A_ADDR, pkt, n, "fragment %d of a never-ending upstream packet (120 bytes each)", i); tick();
+	}
+	/* ... and a long run of packets whose last fragment never arrives: first fragment, next sequence number, again and again */
+	for (int i = 0; i < 700; i++) {
+		unsigned char junk[200]; memset(junk, 0x30 + (i & 63), sizeof junk);
+		int n = tm_data(pkt, 0x6800 + i, 10, 1, (i + 6) & 7, 0, 0, 0, 0, "abcdefghijklmnopqrstuvwxyz0123456789"[(i * 7 + 3) % 36], REF_B32, junk, 130, DOM);
+		deliver(&A_ADDR, pkt, n, "first fragment (130 bytes, not the last) of unfinished upstream packet %d, each with the next sequence number", i); tick();
 	}
 }
 
